@@ -7,10 +7,10 @@ import verif
 import outcommon as oc
 
 INVS = ["C10_OneCloseTag", "C10_NothingAfterClose", "C10_ClosedIffTag", "C10_SendersRefused",
-        "C10_BothClosedAfterServe", "C10_DeadlineKept", "C05_Contiguous", "C05_NoStrayWrites", "C05_WritesUnderLock"]
+        "C10_BothClosedAfterServe", "C10_DeadlineKept", "C10_ReplacedDeadlineInert", "C05_Contiguous", "C05_NoStrayWrites", "C05_WritesUnderLock"]
 
 
-DEVS = [("WriteAfterClose", "C10_NothingAfterClose"), ("CloseTwice", "C10_OneCloseTag"), ("TxDisarmsDeadline", "C10_DeadlineKept")]
+DEVS = [("WriteAfterClose", "C10_NothingAfterClose"), ("CloseTwice", "C10_OneCloseTag"), ("TxDisarmsDeadline", "C10_DeadlineKept"), ("ReplacedDeadlineFires", "C10_ReplacedDeadlineInert")]
 
 
 def run(ctx, focus="close"):
